@@ -188,6 +188,7 @@ def step (_ : Unit) (ws : List String) : Unit × String :=
            | .ok (b, al) => s!"ok {hx b}" ++ showAllocs al
            | .error f => faultStr f)
         | _, _, _, _ => "bad-op"
+    | ["errno", _] => "ok"     -- harness: errno value planted before the library calls; the model has none
     | ["locale", _] => "ok"
     | ["locale", _, _] => "ok"
     | "dupf" :: fmt => match fmtOf fmt with
